@@ -1,7 +1,134 @@
-(* C05 — property theorems only (proved in P_Frames_Fault.v). *)
-Require Import Base M_Frames M_Frames_Fault.
+(* C05 — extract never raises: faults contained and reported, outer frames kept.
+   Property theorems only (proved in P_Frames_Fault.v) about the model functions of M_Frames.v
+   that the generated case files evaluate ([extract], [outermost], [run], [flatten], [ctx_step]),
+   under the guard record [src_guards] regenerated from the source of extract_iter. *)
+Require Import Base M_Frames M_Frames_Fault P_Frames_Fault.
 From SS.gen Require Import SrcFacts.
 
+(* a configuration exercising every call site: sequence and iterator unwraps, an inserting
+   elaborate_frame, a raising contexts step, a raising fill_context, a nested child extraction *)
+Definition ex_cfg (fl : list nat) : cfg :=
+  mkcfg [(0, USeq [Some (IPy 0); Some (IObj 1); Some (IPy 3)]); (1, UIter [IPy 1; IPy 2] false)]
+        [(0, (ENone, true)); (1, (ESeq [RItem (IPy 4); RNext], true)); (2, (ENone, false))] []
+        [(0, CtxOk [0]); (1, CtxOk [1]); (2, CtxRaise)] [(0, FillOk [IObj 1]); (1, FillRaise)]
+        fl true src_guards src_uguard.
+
+(* every hook call site of extract_iter is inside try/except Exception -> save_errors.append
+   (facts re-extracted from the source on every run); if one `try` disappears this fails *)
 Theorem C05_guards_regenerated : src_guards = all_guards.
-Proof. reflexivity. Qed.
+Proof. exact src_guards_all. Qed.
 Print Assumptions C05_guards_regenerated.
+
+(* for all hook tables, all fault sets (any number of simultaneous faults), all roots: no
+   exception escapes extract / extract_outermost's iterator; holds for every fuel, i.e. the
+   model never answers Raised (OutOfFuel is a distinct value) *)
+Theorem C05_total : forall c root e, grd c = src_guards -> extract c root <> Raised e.
+Proof. exact extract_total. Qed.
+Print Assumptions C05_total.
+
+Theorem C05_total_any_state : forall fuel first c tu te errs out t e,
+  grd c = all_guards -> fst (run fuel first c tu te errs out t) <> Raised e.
+Proof. exact run_total. Qed.
+Print Assumptions C05_total_any_state.
+
+Theorem C05_total_outermost : forall c root e, grd c = src_guards -> outermost c root <> OEscaped e.
+Proof. exact outermost_total. Qed.
+Print Assumptions C05_total_outermost.
+
+Example C05_total_ex :
+  grd (ex_cfg [3; 9; 12]) = src_guards /\
+  extract (ex_cfg [3; 9; 12]) (IObj 0) =
+  Ok (Stack [FOut 0 true None [COut 0 [Stack [FOut 1 false None [COut 1 []]] LNone [EFault 9; EFill 1; EFault 12]]];
+             FOut 1 true None [COut 1 []]; FOut 4 true None []; FOut 3 true None []] LNone [EFault 3; EFill 1]).
+Proof. split; vm_compute; reflexivity. Qed.
+
+(* the fault ticks reported anywhere in the result tree (own error list of the Stack and of every
+   nested child Stack) are exactly the faults that fired: tick k is reported iff the k-th hook
+   invocation happened (k < final tick) and was one that raises.  Nothing is swallowed,
+   nothing is invented. *)
+Theorem C05_errors_exact : forall c root s,
+  grd c = src_guards -> extract c root = Ok s ->
+  exists t', extract_t c root 0 = (Ok s, t') /\
+             forall k, In k (tree_faults s) <-> (k < t' /\ fault c k = true).
+Proof. exact extract_errors_exact. Qed.
+Print Assumptions C05_errors_exact.
+
+(* the same for every (nested) run from any state: the tree grows by exactly the faults fired
+   in [t, t'); a nested extract_child is such a run started with empty error and frame lists,
+   so a fault fired during it is reported inside its own Stack *)
+Theorem C05_errors_exact_any_state : forall fuel first c tu te errs out t s t',
+  grd c = all_guards -> run fuel first c tu te errs out t = (Ok s, t') ->
+  t <= t' /\ forall x, In x (tree_faults s) <-> (In x (efaults errs ++ fouts_faults out) \/ Fk c t t' x).
+Proof. exact run_acct. Qed.
+Print Assumptions C05_errors_exact_any_state.
+
+Example C05_errors_exact_ex :
+  exists s, extract_t (ex_cfg [3; 9; 12; 40]) (IObj 0) 0 = (Ok s, 21) /\ tree_faults s = [3; 9; 12].
+Proof. eexists. split; vm_compute; reflexivity. Qed.
+
+(* frames already yielded and errors already recorded are never dropped, reordered or altered by
+   anything that happens later in the traversal (any hook results, any faults, any guards):
+   they are a prefix of the final frames / errors *)
+Theorem C05_prefix_kept : forall fuel first c tu te errs out t frs lf es t',
+  run fuel first c tu te errs out t = (Ok (Stack frs lf es), t') ->
+  (exists nf, frs = rev out ++ nf) /\ (exists ne, es = rev errs ++ ne).
+Proof. exact run_keeps. Qed.
+Print Assumptions C05_prefix_kept.
+(* NOT proved here (checked at run time by the direct oracle of harness/c05.py and by
+   harness/c05_real.py):  forall c fl T, (forall t, t < T -> fl t = false) ->
+     firstn (frames yielded before tick T) of extract (with_faults c fl) root
+     = the same prefix of extract (no_faults c) root. *)
+
+(* a failing elaborate_frame (own exception or injected fault): the frame is kept with
+   hide = false and the contexts it had, exactly one error is recorded after the earlier ones,
+   and exactly the maximal following run of queue entries of depth >= the frame's depth is
+   pruned; the first shallower entry and everything after it stay *)
+Theorem C05_elab_fail : forall fuel c tu te errs out t f org d rest errs1 t1 cx errs2 t2 frs lf es t',
+  g_elab (grd c) = true ->
+  flatten (S fuel) 0 c tu (rev te) errs t = FlOk ((QFr f org, d) :: rest) errs1 t1 ->
+  ctx_step c (fun k t => run fuel false c [(better_origin c (q_of k) None, q_of k, 0)] [] [] [] t) f errs1 t1
+    = (cx, errs2, t2, None) ->
+  (fault c t2 = true \/ elab c f = ERaise) ->
+  run (S fuel) false c tu te errs out t = (Ok (Stack frs lf es), t') ->
+  (exists nf, frs = rev out ++ FOut f false org cx :: nf) /\
+  (exists ne, es = rev errs2 ++ (if fault c t2 then EFault t2 else EElab f) :: ne) /\
+  (exists pruned, requeue rest = pruned ++ dropge d (requeue rest)
+                  /\ Forall (fun e : qent => d <= snd e) pruned
+                  /\ match dropge d (requeue rest) with [] => True | e :: _ => snd e < d end).
+Proof. exact run_elab_fail_result. Qed.
+Print Assumptions C05_elab_fail.
+
+Theorem C05_elab_fail_continues : forall fuel c tu te errs out t f org d rest errs1 t1 cx errs2 t2,
+  g_elab (grd c) = true ->
+  flatten (S fuel) 0 c tu (rev te) errs t = FlOk ((QFr f org, d) :: rest) errs1 t1 ->
+  ctx_step c (fun k t => run fuel false c [(better_origin c (q_of k) None, q_of k, 0)] [] [] [] t) f errs1 t1
+    = (cx, errs2, t2, None) ->
+  (fault c t2 = true \/ elab c f = ERaise) ->
+  run (S fuel) false c tu te errs out t =
+  run fuel false c (dropge d (requeue rest)) []
+      ((if fault c t2 then EFault t2 else EElab f) :: errs2) (FOut f false org cx :: out) (S t2).
+Proof. exact run_elab_fail. Qed.
+Print Assumptions C05_elab_fail_continues.
+
+Example C05_elab_fail_ex :
+  let c := ex_cfg [6] in
+  g_elab (grd c) = true /\
+  flatten 60 0 c (root_q c (IObj 1)) [] [] 0 = FlOk [(QFr 1 None, 1); (QFr 2 None, 1)] [] 4 /\
+  ctx_step c (fun k t => run 59 false c [(better_origin c (q_of k) None, q_of k, 0)] [] [] [] t) 1 [] 4
+    = ([COut 1 []], [EFill 1], 6, None) /\
+  fault c 6 = true /\
+  run 60 false c (root_q c (IObj 1)) [] [] [] 0 = (Ok (Stack [FOut 1 false None [COut 1 []]] LNone [EFill 1; EFault 6]), 7).
+Proof. vm_compute. repeat split; reflexivity. Qed.
+
+(* a failing contexts step (contexts_active_in_frame raises or the fault hits it): the frame gets
+   no contexts, exactly one error is recorded, the traversal is not aborted *)
+Theorem C05_ctx_fail : forall c runner f errs t,
+  with_ctx c = true -> g_ctx (grd c) = true ->
+  (fault c t = true \/ ctxs c f = CtxRaise) ->
+  ctx_step c runner f errs t = ([], (if fault c t then EFault t else ECtx f) :: errs, S t, None).
+Proof. exact ctx_step_fail. Qed.
+Print Assumptions C05_ctx_fail.
+
+Example C05_ctx_fail_ex :
+  with_ctx (ex_cfg []) = true /\ g_ctx (grd (ex_cfg [])) = true /\ ctxs (ex_cfg []) 2 = CtxRaise.
+Proof. vm_compute. repeat split; reflexivity. Qed.
